@@ -48,6 +48,7 @@ Theorem C02_new_table_cells : forall s ht cs chs sids tsid' s' k c h,
     match c with
     | CFrom src None => exists vs, getv s src = Some vs /\ vals v = vals vs /\ nm v = nm vs
     | CFrom src (Some idx) => exists vs, getv s src = Some vs /\ vals v = select (vals vs) idx SNone /\ nm v = nm vs
+    | CFromAs src n => exists vs, getv s src = Some vs /\ vals v = vals vs /\ nm v = n
     | CCat src extra => exists vs, getv s src = Some vs /\ vals v = vals vs ++ extra
     | CLit l n => vals v = l /\ nm v = n
     | CRes l n => vals v = l /\ nm v = n
